@@ -32,6 +32,54 @@ __CPROVER_ensures(HAS_DIR(name) ==> (*result_dir == name.d[0] && result_name->n 
 __CPROVER_ensures(!HAS_DIR(name) ==> (*result_dir == __CPROVER_old(*result_dir) && result_name->n == name.n &&
                                       (g_k >= name.n || result_name->d[g_k] == name.d[g_k])));
 
+/* ---- parse_filename, first part: defaults and the optional ":drive." prefix ---- */
+struct VolSelF { unsigned surface; _Bool has_sub; char sub; };
+struct FspCtx { struct VolSelF current_volume; char current_directory; };
+struct FspResult { struct VolSelF vol; char dir; };
+struct opt_vol { _Bool has; struct VolSelF val; };
+static unsigned g_errors;
+static void error_set(void) { if (g_errors < 1000) g_errors++; }
+/* VolumeSelector::parse(fsp.substr(pos), &end, error): parses a drive number and optional volume letter at the start of the
+   string; on success `end` is the number of characters it used (at least 1, at most what is there); on failure the error text
+   is set (its own contract: harness/dfs_selector.c for the drive number) */
+static struct { unsigned calls; unsigned pos; size_t end; struct opt_vol r; } VP;
+static struct opt_vol volume_parse_model(struct cstr s, unsigned pos, size_t *end)
+{
+  __CPROVER_assert(pos <= s.n, "C07: std::string::substr(pos) with pos beyond size() throws out_of_range");
+  VP.calls++; VP.pos = pos;
+  VP.r.has = nondet_bool(); VP.r.val.surface = nondet_uint(); VP.r.val.has_sub = nondet_bool(); VP.r.val.sub = nondet_char();
+  VP.end = nondet_size_t();
+  __CPROVER_assume(VP.end >= 1 && VP.end <= (pos <= s.n ? s.n - pos : 0));
+  if (VP.r.has) *end = VP.end; else error_set();
+  return VP.r;
+}
+#include "fsp_drive_prefix.inc"
+#define VOL_EQ_(a, b) ((a).surface == (b).surface && (a).has_sub == (b).has_sub && (a).sub == (b).sub)
+static bool fsp_drive_prefix(const struct FspCtx *ctx, struct cstr fsp, struct FspResult *result_, struct cstr *name_out)
+__CPROVER_requires(__CPROVER_is_fresh(ctx, sizeof(*ctx)) && __CPROVER_is_fresh(result_, sizeof(*result_)) && __CPROVER_is_fresh(name_out, sizeof(*name_out)))
+__CPROVER_requires(fsp.n <= 15 && VP.calls == 0 && g_errors == 0)
+__CPROVER_assigns(*result_, *name_out, VP, g_errors)
+/* the directory defaults to the current one (--dir); the split that follows may override it */
+__CPROVER_ensures(__CPROVER_return_value ==> result_->dir == ctx->current_directory)
+/* no ':' in front: the drive defaults to the current one (--drive) and the whole argument goes on to the split */
+__CPROVER_ensures(!(fsp.n >= 1 && fsp.d[0] == ':') ==>
+                  (__CPROVER_return_value && VP.calls == 0 && VOL_EQ_(result_->vol, ctx->current_volume) && name_out->n == fsp.n &&
+                   (g_k >= fsp.n || name_out->d[g_k] == fsp.d[g_k])))
+/* ":<drive>.rest": the drive is what VolumeSelector::parse makes of the text after the colon, it must be followed by '.', and
+   the rest goes on to the split; anything else is refused with an error text */
+__CPROVER_ensures((fsp.n >= 1 && fsp.d[0] == ':') ==> (VP.calls == 1 && VP.pos == 1))
+__CPROVER_ensures((fsp.n >= 1 && fsp.d[0] == ':') ==>
+                  (__CPROVER_return_value == (VP.r.has && 1 + VP.end < fsp.n && fsp.d[1 + VP.end] == '.')))
+__CPROVER_ensures((fsp.n >= 1 && fsp.d[0] == ':' && __CPROVER_return_value) ==>
+                  (VOL_EQ_(result_->vol, VP.r.val) && name_out->n == fsp.n - (VP.end + 2) &&
+                   (g_k >= name_out->n || name_out->d[g_k] == fsp.d[g_k + VP.end + 2])))
+__CPROVER_ensures(!__CPROVER_return_value ==> g_errors == 1);
+void h_drive_prefix(void)
+{
+  const struct FspCtx *c; struct cstr f; struct FspResult *r; struct cstr *n;
+  g_k = nondet_size_t(); __CPROVER_assume(g_k < 14); VP.calls = 0; g_errors = 0;
+  fsp_drive_prefix(c, f, r, n);
+}
 void h_parse_dir_and_name(void)
 {
   struct cstr nm; char *d; struct cstr *out;
